@@ -94,7 +94,7 @@ CaseResult body(Chooser& ch, Stats* st) {
   std::ostringstream js;
   js << "{\"spec\":" << s.json(4) << ",\"naux\":" << naux << ",\"via\":" << jstr(use_c ? "C" : "C++") << ",\"trace_ops\":" << trace.size();
   if (!ok) { r.fail = "writer failed on a valid table without any injected fault"; r.json = js.str() + "}"; return r; }
-  if (opens != closes || opens < 1) { r.fail = "file opened " + std::to_string(opens) + " times but closed " + std::to_string(closes) + " times"; r.json = js.str() + "}"; return r; }
+  if (opens != closes) { r.fail = "file opened " + std::to_string(opens) + " times but closed " + std::to_string(closes) + " times"; r.json = js.str() + "}"; return r; }
   if (classify(target, T) != 1) { r.fail = "writer reported success but the file does not read back equal"; r.json = js.str() + "}"; return r; }
   struct stat sb; stat(target.c_str(), &sb);
   long long fsize = sb.st_size;
@@ -105,6 +105,11 @@ CaseResult body(Chooser& ch, Stats* st) {
   {
     std::vector<Cut> cuts;
     size_t nwrites = 0;
+    // a writer that builds the file under another name and renames it into place: until the rename has happened
+    // the target does not exist (nothing to load); the bytes count for the target only from then on
+    size_t rename_at = trace.size();
+    for (size_t k = 0; k < trace.size(); k++) if (trace[k].kind == c08::OP_RENAME) { rename_at = k; break; }
+    bool has_rename = rename_at < trace.size();
     for (size_t k = 0; k < trace.size(); k++) {
       cuts.push_back({k, 0});
       if (trace[k].kind != c08::OP_WRITE) continue;
@@ -144,6 +149,7 @@ CaseResult body(Chooser& ch, Stats* st) {
     for (const Cut& c : cuts) {
       advance_to(c);
       if (!exists) continue;
+      if (has_rename && c.op <= rename_at) { if (st) st->label("cut:target_absent_before_rename"); rejected++; continue; }
       int cls = classify(cutp, T);
       struct stat cb; fstat(fd, &cb);
       bool inside = cb.st_size > 0 && cb.st_size < fsize;
